@@ -135,6 +135,52 @@ fn cold_side_job(op: Op2, form: Form, cold_port: usize, script_len: usize, len: 
   })
 }
 
+/// both inputs cold synchronous scripts: what arrives when is then decided by the
+/// order in which the operator subscribes its inputs: the secondary first
+/// where it has to be in place before the primary runs (with_latest_from latches
+/// its value, skip_until opens its gate), the primary first for the others. This
+/// order is taken from the unchanged tree; swapping it changes what a user of
+/// two cold inputs receives (`from_iter(1..=3).with_latest_from(of(10))`).
+fn both_cold_job(op: Op2, form: Form, slen: usize) -> Job {
+  Job::new(format!("{} {}(both inputs cold, scripts<={slen})", form_name(form), op.name()), move |ch, obs| {
+    let mut scripts: [Vec<NoteSpec>; 2] = [vec![], vec![]];
+    let mut tls: [Vec<Ev>; 2] = [vec![], vec![]];
+    for port in 0..2 {
+      for _ in 0..slen {
+        let k = ch.choose(ALPHA4 + 1);
+        if k == ALPHA4 {
+          break;
+        }
+        let ev = port_event(port, k);
+        let ns = match &ev {
+          Note::N(v) => NoteSpec::N(v.num()),
+          Note::C => NoteSpec::C,
+          Note::Err(e) => NoteSpec::Err(*e),
+        };
+        let term = ev.is_terminal();
+        scripts[port].push(ns);
+        tls[port].push((port, ev));
+        if term {
+          break;
+        }
+      }
+    }
+    ch.label(|| format!("scripts {:?} / {:?}", scripts[0], scripts[1]));
+    let secondary_first = matches!(op, Op2::WithLatestFrom | Op2::SkipUntil);
+    let tl: Vec<Ev> = if secondary_first {
+      tls[1].iter().chain(tls[0].iter()).cloned().collect()
+    } else {
+      tls[0].iter().chain(tls[1].iter()).cloned().collect()
+    };
+    let pipe = Pipe::S(Src::Create(scripts[0].clone())).o2(op, Pipe::S(Src::Create(scripts[1].clone())));
+    let r = Run::start(&pipe, form);
+    compare(obs, op, form, &pipe, &tl, &r);
+    obs.delivered = r.probe.len() as u64;
+    obs.note_outcome(&r.probe.notes());
+    obs.log(|| format!("{}: [{}]", pipe.show(), fmt_notes(&r.probe.notes())));
+  })
+}
+
 /// both inputs hot `create` sources, the output observed by a subscriber that
 /// reports finished after `k` notifications: the operator may stop early, but
 /// the terminal its definition prescribes must still be handed on
@@ -208,6 +254,7 @@ pub fn plan(tier: Tier) -> Plan {
       for k in 0..3 {
         jobs.push(sated_timeline_job(op, form, k, len - 1));
       }
+      jobs.push(both_cold_job(op, form, slen));
     }
   }
   Plan {
